@@ -363,6 +363,73 @@ func runC40(c *Ctx) {
 				c.Check("alphabet", fmt.Sprintf("write#%d(const)@javaCompatibleUsername", i), w, inAllowed(k, k), fmt.Sprintf("constant byte %q is outside [A-Za-z0-9_]", rune(k)))
 				continue
 			}
+			// the byte chosen by a helper (javaUsernameByte(r)): every return is an allowed constant, or the
+			// rune itself behind a predicate helper each of whose true-returns confines it to the alphabet
+			if hc, isC := strip(arg).(*ssa.Call); isC {
+				if h := moduleHelperWithBody(&hc.Call); h != nil && len(h.Params) == 1 {
+					c.Analysed(h)
+					okH, why := true, ""
+					for _, hr := range successReturns(h) {
+						rv := stripNoSubst(hr.Results[0])
+						if k, isK := constInt(rv); isK {
+							if !inAllowed(k, k) {
+								okH, why = false, fmt.Sprintf("%s returns the constant byte %q", h.Name(), rune(k))
+							}
+							continue
+						}
+						if rv != ssa.Value(h.Params[0]) {
+							okH, why = false, h.Name()+" returns a computed byte"
+							continue
+						}
+						confined := false
+						MustCross(hr, func(e Edge, cond ssa.Value, truth bool) bool {
+							pc, isPC := stripNoSubst(cond).(*ssa.Call)
+							if !isPC || !truth {
+								return false
+							}
+							g := moduleHelperWithBody(&pc.Call)
+							if g == nil || len(g.Params) != 1 || len(pc.Call.Args) != 1 || stripNoSubst(pc.Call.Args[0]) != ssa.Value(h.Params[0]) {
+								return false
+							}
+							c.Analysed(g)
+							all, n := true, 0
+							for _, gr := range successReturns(g) {
+								gv := stripNoSubst(gr.Results[0])
+								if b, isB := constBool(gv); isB {
+									if !b {
+										continue
+									}
+									n++
+									r := RangeAt(gr.Block(), isVal(g.Params[0]))
+									if !(r.HasLo() && r.HasHi() && inAllowed(r.Lo, r.Hi)) {
+										all = false
+									}
+									continue
+								}
+								n++
+								bo, isBO := gv.(*ssa.BinOp)
+								k, isK := int64(0), false
+								if isBO && bo.Op == token.EQL && stripNoSubst(bo.X) == ssa.Value(g.Params[0]) {
+									k, isK = constInt(bo.Y)
+								}
+								if !isK || !inAllowed(k, k) {
+									all = false
+								}
+							}
+							if all && n > 0 {
+								confined = true
+							}
+							return all && n > 0
+						})
+						if !confined {
+							okH, why = false, h.Name()+" returns the rune itself on a path where no predicate confines it to a-z, A-Z, 0-9 or '_'"
+						}
+					}
+					c.Check("alphabet", fmt.Sprintf("write#%d(rune)@javaCompatibleUsername", i), w, okH,
+						"a byte outside the Java alphabet can be appended: "+why)
+					continue
+				}
+			}
 			// byte(r): range of r on every incoming edge of the block
 			src := strip(arg)
 			isR := func(v ssa.Value) bool { return strip(v) == src }
@@ -494,7 +561,23 @@ func runC40(c *Ctx) {
 				nProf++
 				c.Analysed(fn)
 				cl := callValue(seeThrough(sv))
-				c.Check("name-through-filter", "GameProfile.Name@"+shortName(fn), in, cl != nil && ju != nil && staticCallee(&cl.Call) == ju,
+				viaFilter := cl != nil && ju != nil && staticCallee(&cl.Call) == ju
+				if !viaFilter && cl != nil && ju != nil {
+					// a helper every return of which is javaCompatibleUsername(…)
+					if h := moduleHelperWithBody(&cl.Call); h != nil {
+						c.Analysed(h)
+						n, all := 0, true
+						for _, hr := range successReturns(h) {
+							n++
+							rc := callValue(seeThrough(hr.Results[0]))
+							if rc == nil || staticCallee(&rc.Call) != ju {
+								all = false
+							}
+						}
+						viaFilter = all && n > 0
+					}
+				}
+				c.Check("name-through-filter", "GameProfile.Name@"+shortName(fn), in, viaFilter,
 					"a Bedrock player's Java profile name does not come out of javaCompatibleUsername")
 			}
 		})
@@ -507,7 +590,16 @@ func runC40(c *Ctx) {
 	if jf := c.MustFunc(pkgFloodgate + ":(*BedrockData).JavaUuid"); jf != nil {
 		pure := true
 		var hw []ssa.Instruction
-		eachInstr(jf, func(in ssa.Instruction) {
+		// JavaUuid and the helpers it was split into (xuidDigest(xuid), stampRFC4122(id, 5)), parameters bound
+		jfParts, jfRestore := boundParts(jf, 1)
+		defer jfRestore()
+		eachJF := func(f func(ssa.Instruction)) {
+			for _, part := range jfParts {
+				c.Analysed(part)
+				eachInstr(part, f)
+			}
+		}
+		eachJF(func(in ssa.Instruction) {
 			cc := callOf(in)
 			if cc == nil {
 				return
@@ -521,15 +613,33 @@ func runC40(c *Ctx) {
 			}
 		})
 		c.CheckAt("uuid-deterministic", "JavaUuid", c.P.Pos(jf.Pos()), pure, "the XUID→UUID mapping must not use a clock or random source")
-		okIn := len(hw) == 2
-		if okIn {
-			s, isS := constString(callOf(hw[0]).Args[0])
-			fromX := derivesFrom(callOf(hw[1]).Args[0], 5, func(v ssa.Value) bool { return strings.HasSuffix(PathOf(v), ".Xuid") })
-			okIn = isS && s == "FloodgateXUID:" && fromX && domBefore(hw[0], hw[1])
+		// what is hashed: the writes in order, each read as its concatenated parts
+		for i := 0; i < len(hw); i++ {
+			for j := i + 1; j < len(hw); j++ {
+				if domBeforeIn(jf, hw[j], hw[i]) {
+					hw[i], hw[j] = hw[j], hw[i]
+				}
+			}
 		}
+		var hashed []string
+		fixed := len(hw) > 0
+		for _, w := range hw {
+			k, ok := strKinds(callOf(w).Args[0], func(v ssa.Value) string {
+				if s, isS := constString(v); isS {
+					return fmt.Sprintf("%q", s)
+				}
+				if derivesFrom(v, 6, func(x ssa.Value) bool { return strings.HasSuffix(PathOf(x), ".Xuid") }) {
+					return "xuid"
+				}
+				return "?"
+			}, 3)
+			hashed = append(hashed, k...)
+			fixed = fixed && ok
+		}
+		okIn := fixed && strings.Join(hashed, " ") == `"FloodgateXUID:" xuid`
 		c.CheckAt("uuid-input", "sha1(\"FloodgateXUID:\"‖xuid)@JavaUuid", c.P.Pos(jf.Pos()), okIn, "the UUID must be derived from the namespace prefix followed by the XUID only")
 		var st6, st8 *ssa.Store
-		eachInstr(jf, func(in ssa.Instruction) {
+		eachJF(func(in ssa.Instruction) {
 			st, ok := in.(*ssa.Store)
 			if !ok {
 				return
